@@ -394,6 +394,29 @@ def run_hypothesis(test_body, strategy, n, seedval, res, known, prop, shrink=Tru
             skip.add(f.sig)
             state['count'] = True
             remaining -= min(remaining, max(1, state['ran']))
-        except hypothesis.errors.HypothesisException as e:
-            raise HarnessError('hypothesis: %r' % (e,))
+        except HarnessError:
+            raise
+        except BaseException as e:
+            # Hypothesis wraps failures it could not reproduce (code under test with leaking state) in Flaky /
+            # exception groups: the recorded CaseFailure is still a genuine observation of a failing case
+            f = state['last'] or find_case_failure(e)
+            if f is None:
+                raise HarnessError('hypothesis: %r' % (e,))
+            res.fail(f.sig, f.what, f.case)
+            res.notes.append('hypothesis could not reproduce a failure deterministically (%s): state leaks between cases?' % type(e).__name__)
+            skip.add(f.sig)
+            state['count'] = True
+            remaining -= min(remaining, max(1, state['ran']))
     return res
+
+
+def find_case_failure(e, depth=0):
+    if isinstance(e, CaseFailure):
+        return e
+    if depth > 6 or e is None:
+        return None
+    for sub in getattr(e, 'exceptions', ()) or ():
+        f = find_case_failure(sub, depth + 1)
+        if f:
+            return f
+    return find_case_failure(e.__cause__, depth + 1) or find_case_failure(e.__context__, depth + 1)
